@@ -8,6 +8,7 @@ import (
 	"strings"
 	"time"
 
+	"github.com/cosmos/cosmos-sdk/telemetry"
 	sdk "github.com/cosmos/cosmos-sdk/types"
 
 	"verif/harness/envseam"
@@ -25,6 +26,8 @@ type Deviation struct {
 	Restart bool
 	// Zone: the host's local time zone (nil = the zone the process started with)
 	Zone *time.Location
+	// Telemetry: the node runs with `[telemetry] enabled = true` in its app.toml (node-local configuration)
+	Telemetry bool
 }
 
 var hostZone = time.Local
@@ -41,13 +44,14 @@ var otherZone = time.FixedZone("UTC+05:45", 5*3600+45*60)
 var Deviations = []Deviation{
 	{Name: "restarted-node+clock+7m+seed1", Clock: 7 * time.Minute, Seed: 1, Cold: true, Restart: true},
 	{Name: "cold+clock-7m+seed9+zone", Clock: -7 * time.Minute, Seed: 9, Cold: true, Zone: otherZone},
-	{Name: "cold+clock+400d+seed17", Clock: 400 * 24 * time.Hour, Seed: 17, Cold: true},
+	{Name: "cold+clock+400d+seed17+telemetry", Clock: 400 * 24 * time.Hour, Seed: 17, Cold: true, Telemetry: true},
 }
 
 var singleDeviations = []Deviation{
 	{Name: "cold-instance", Cold: true},
 	{Name: "restarted-node", Cold: true, Restart: true},
 	{Name: "host-time-zone", Cold: true, Zone: otherZone},
+	{Name: "node-config-telemetry", Cold: true, Telemetry: true},
 	{Name: "host-clock", Clock: 400 * 24 * time.Hour, Cold: true},
 	{Name: "host-clock", Clock: 7 * time.Minute, Cold: true},
 	{Name: "host-clock", Clock: -7 * time.Minute, Cold: true},
@@ -75,11 +79,24 @@ func setEnv(d Deviation) {
 	} else {
 		time.Local = hostZone
 	}
+	setTelemetry(d.Telemetry)
 	envseam.SetClockOffset(d.Clock)
 	envseam.SetMapSeed(true, d.Seed)
 }
 
+var telemetryOn bool
+
+// setTelemetry switches the SDK's process-wide telemetry flag the way a node's start-up does from its app.toml.
+func setTelemetry(on bool) {
+	if on == telemetryOn {
+		return
+	}
+	telemetryOn = on
+	_, _ = telemetry.New(telemetry.Config{Enabled: on, ServiceName: "verif", PrometheusRetentionTime: 0})
+}
+
 func baselineEnv() {
+	setTelemetry(false)
 	time.Local = hostZone
 	envseam.SetClockOffset(0)
 	envseam.SetMapSeed(true, 0)
